@@ -120,6 +120,10 @@ def job_elastic(cfg):
         R[("displacement", True, 0)] = simu.Result("displacement")
         R[("speed", True, 0)] = simu.Result("speed")
         R[("accel", True, 0)] = simu.Result("accel")
+        X = {nm: simu.Result(nm, nodeValues=True) for nm in ("displacement_norm", "speed_norm", "accel_norm", "displacement_matrix")}
+        X["Evm"] = simu.Result("Evm", nodeValues=False)
+        X["Wdef"] = simu.Result("Wdef")
+        X["Wdef_e"] = simu.Result("Wdef_e", nodeValues=False)
         # independent oracle at the Gauss points from the code's own strain / stress fields (their correctness is C01's)
         Eps_g = [np.asarray(simu._Calc_Epsilon_e_pg(u, g), dtype=object) for g in mesh.Get_list_groupElem()]
         Sig_g = [np.asarray(simu._Calc_Sigma_e_pg(simu._Calc_Epsilon_e_pg(u, g), g), dtype=object) for g in mesh.Get_list_groupElem()]
@@ -203,6 +207,30 @@ def job_elastic(cfg):
                     d = 0.0
                 if d > worst:
                     worst, where = d, name
+        U2 = {"displacement_norm": uf, "speed_norm": vf, "accel_norm": af}
+        for nm, vec in U2.items():
+            d = float(np.abs(np.asarray(s2.Result(nm), dtype=float) - np.linalg.norm(vec.reshape(-1, dim), axis=1)).max())
+            if d > worst:
+                worst, where = d, nm
+        dm = np.asarray(s2.Result("displacement_matrix"), dtype=float)
+        d = float(max(np.abs(dm[:, :dim] - uf.reshape(-1, dim)).max(), np.abs(dm[:, dim:]).max() if dim < 3 else 0.0)) if dm.shape == (m2.Nn, 3) else 1.0
+        if d > worst:
+            worst, where = d, "displacement_matrix"
+        evm = []
+        for F in Ef:
+            G = F * sc
+            if dim == 2:
+                q = G[..., 0] ** 2 + G[..., 1] ** 2 - G[..., 0] * G[..., 1] + 3 * G[..., 2] ** 2
+            else:
+                q = 0.5 * ((G[..., 0] - G[..., 1]) ** 2 + (G[..., 1] - G[..., 2]) ** 2 + (G[..., 2] - G[..., 0]) ** 2 + 6 * (G[..., 5] ** 2 + G[..., 3] ** 2 + G[..., 4] ** 2))
+            evm.append(np.sqrt(q).mean(1))
+        d = float(np.abs(np.asarray(s2.Result("Evm", nodeValues=False), dtype=float) - np.concatenate(evm)).max())
+        if d > worst:
+            worst, where = d, "Evm"
+        wt, we = float(s2.Result("Wdef")), float(np.asarray(s2.Result("Wdef_e", nodeValues=False)).sum())
+        d = abs(wt - we) / max(1.0, abs(we))
+        if d > worst:
+            worst, where = d, "Wdef"
         return worst > 1e-8, {"worst_relative_error": worst, "result": where, "query_sequence": seq[:8]}
 
     smax = Fraction(int(float(np.abs(np.asarray(make_material(cfg["law"], dim).C)).max()) * 4) + 1)
@@ -269,6 +297,32 @@ def job_elastic(cfg):
     cmp(res, f"{key} Result('displacement')", R[("displacement", True, 0)], u, pcs, replay, 0, key=f"{key} displacement")
     cmp(res, f"{key} Result('speed')", R[("speed", True, 0)], v, pcs, replay, 0, key=f"{key} speed")
     cmp(res, f"{key} Result('accel')", R[("accel", True, 0)], a, pcs, replay, 0, key=f"{key} accel")
+    # norms, matrix form, equivalent strain, total energy
+    for nm, vec in (("displacement_norm", u), ("speed_norm", v), ("accel_norm", a)):
+        V2 = vec.reshape(-1, dim)
+        want = np.array([root(sum(V2[i, d] * V2[i, d] for d in range(dim)), 2) for i in range(mesh.Nn)], dtype=object)
+        cmp(res, f"{key} Result('{nm}')", X[nm], want, pcs, replay, 0, key=f"{key} norm of a vector result")
+    Um = np.zeros((mesh.Nn, 3), dtype=object)
+    Um[:, :dim] = u.reshape(-1, dim)
+    cmp(res, f"{key} Result('displacement_matrix')", X["displacement_matrix"], Um, pcs, replay, 0, key=f"{key} displacement_matrix")
+    want = []
+    for F in Eps_g:
+        Ne_, nPg_, nc_ = F.shape
+        for e in range(Ne_):
+            acc = 0
+            for p_ in range(nPg_):
+                G = [F[e, p_, k] if k < dim else F[e, p_, k] * Fraction(float(1 / np.sqrt(2))) for k in range(nc_)]
+                if dim == 2:
+                    q = G[0] ** 2 + G[1] ** 2 - G[0] * G[1] + 3 * G[2] ** 2
+                else:
+                    q = ((G[0] - G[1]) ** 2 + (G[1] - G[2]) ** 2 + (G[2] - G[0]) ** 2 + 6 * (G[5] ** 2 + G[3] ** 2 + G[4] ** 2)) / 2
+                acc = acc + root(q, 2)
+            want.append(acc / nPg_)
+    cmp(res, f"{key} Result('Evm')", X["Evm"], np.array(want, dtype=object), pcs, replay, TOL, key=f"{key} Evm")
+    tot = as_sym(0)
+    for w_ in np.asarray(X["Wdef_e"], dtype=object).ravel():
+        tot = tot + w_
+    res.record(f"{key} Result('Wdef') = sum of Result('Wdef_e')", prove_abs_le(as_sym(X["Wdef"]) - tot, TOL * smax * n, pcs, key), replay, key=f"{key} Wdef total")
     # node <-> element conversion preserves constants
     k0 = c.var("const", -5, 5)
     with facade.symbolic():
@@ -378,6 +432,129 @@ def job_simple(cfg):
     return res
 
 
+def job_beam_results(cfg):
+    """every result a Beam simulation advertises, on a havoc state of an inclined member: derivative results and internal forces against the
+    strain / internal-force fields in their documented order, nodal forces against K u, stress components against the stress field in its
+    documented order, vector forms of strain / stress; an advertised name must return a value (no exception, not None)"""
+    res = JobResult(cfg)
+    c = new_context()
+    facade.install()
+    dim, timo = cfg["dim"], cfg["timoshenko"]
+    P2 = {1: (2.0, 0, 0), 2: (3.0, 4.0, 0), 3: (2.0, 3.0, 6.0)}[dim]
+
+    def build():
+        simu, beam, L = simlib.beam_simu(dim, "SEG2", (0, 0, 0), P2, 2, timo)
+        return simu
+
+    simu = build()
+    mesh = simu.mesh
+    dof_n = simu.Get_dof_n()
+    n = mesh.Nn * dof_n
+    u = sym_array("u", n)
+    res.symbols = n
+    key = f"beam dim={dim} {'Timoshenko' if timo else 'Euler-Bernoulli'}"
+    res.functions |= {"Beam.Result", "Beam.Results_Available", "Beam._indexResult", "Beam._Calc_Epsilon_e_pg", "Beam._Calc_InternalForces_e_pg", "Beam._Calc_Sigma_e_pg", "_Simu.Results_Reshape_values"}
+    deriv = {1: ["ux'"], 2: ["ux'", "rz'"], 3: ["ux'", "rx'", "ry'", "rz'"]}[dim]   # documented order of _Calc_Epsilon_e_pg
+    forces = {1: ["N"], 2: ["N", "Mz"], 3: ["N", "Mx", "My", "Mz"]}[dim]            # documented order of _Calc_InternalForces_e_pg
+    stress = {1: ["Sxx"], 2: ["Sxx", "Syy", "Sxy"], 3: ["Sxx", "Syy", "Szz", "Syz", "Sxz", "Sxy"]}[dim]  # documented order of _Calc_Sigma_e_pg
+    unk = simu.Get_unknowns()
+    nodal_f = {("f" + q if len(q) == 1 else "c" + q[1]): i for i, q in enumerate(unk)}
+    avail = simu.Results_Available()
+    mark = c.mark()
+    got, failed = {}, {}
+    with facade.symbolic():
+        simu._Set_solutions(simu.problemType, u.copy())
+        Eps = np.asarray(simu._Calc_Epsilon_e_pg(u), dtype=object)
+        Frc = np.asarray(simu._Calc_InternalForces_e_pg(simu._Calc_Epsilon_e_pg(u)), dtype=object)
+        Sig = np.asarray(simu._Calc_Sigma_e_pg(simu._Calc_Epsilon_e_pg(u)), dtype=object)
+        K = simu.Get_K_C_M_F()[0]
+        Kd = np.asarray(K.a if isinstance(K, facade.SymMatrix) else K.toarray(), dtype=object)[:n, :n]
+        for name in avail:
+            for nv in (False, True):
+                try:
+                    got[(name, nv)] = simu.Result(name, nodeValues=nv)
+                except Exception as e:  # an advertised result that raises (symbolic-execution control exceptions are BaseException)
+                    failed[(name, nv)] = f"{type(e).__name__}: {e}"[:120]
+    pcs = c.pc_since(mark)
+    res.paths, res.path_conditions = 1, len(pcs)
+
+    def emean(F, k):
+        return np.array([sum(F[e, p_, k] for p_ in range(F.shape[1])) / F.shape[1] for e in range(F.shape[0])], dtype=object)
+
+    def family(name):
+        if name in deriv:
+            return "derivative results (ux', rx', ry', rz')", emean(Eps, deriv.index(name))
+        if name in forces:
+            return "internal forces (N, Mx, My, Mz)", emean(Frc, forces.index(name))
+        if name in stress:
+            return "stress components", emean(Sig, stress.index(name))
+        if name in nodal_f:
+            Ku = facade._matmul(Kd, u)
+            return "nodal forces (K u)", np.asarray(Ku, dtype=object).reshape(-1, dof_n)[:, nodal_f[name]]
+        if name in ("Strain", "Srain"):
+            return "vector results Strain / Stress", np.stack([emean(Eps, k) for k in range(Eps.shape[2])], axis=1)
+        if name == "Stress":
+            return "vector results Strain / Stress", np.stack([emean(Sig, k) for k in range(Sig.shape[2])], axis=1)
+        return None, None
+
+    def make_replay(name, nv):
+        def replay(env):
+            uf = farr(c, env, u)
+            s2 = build()
+            s2._Set_solutions(s2.problemType, uf.copy())
+            try:
+                r = s2.Result(name, nodeValues=nv)
+            except Exception as e:
+                return True, {"result": name, "nodeValues": nv, "raises": f"{type(e).__name__}: {e}"[:160]}
+            if r is None:
+                return True, {"result": name, "nodeValues": nv, "returns": None, "advertised": name in s2.Results_Available()}
+            fam, want = family(name)
+            if want is None or (nv != (name in nodal_f)):
+                if want is None or name in nodal_f:
+                    return False, {}
+                want = node_average(mesh, want if want.ndim == 2 else want[:, None])
+                want = want if want.shape[1] > 1 else want[:, 0]
+            wf = farr(c, env, want)
+            r = np.asarray(r, dtype=float)
+            if r.shape != wf.shape:
+                return True, {"result": name, "shape": list(r.shape), "expected_shape": list(wf.shape)}
+            err = float(np.abs(r - wf).max()) / max(1.0, float(np.abs(wf).max()))
+            return err > 1e-8, {"result": name, "relative_difference": err, "got": r.ravel()[:4].tolist(), "expected": wf.ravel()[:4].tolist()}
+        return replay
+
+    scale = Fraction(int(float(np.abs(np.asarray(Kd, dtype=float)).max())) + 1) if not has_sym_arr(Kd) else Fraction(10 ** 4)
+    for name in avail:
+        fam, want = family(name)
+        for nv in (False, True):
+            lab = f"{key} Result('{name}', nodeValues={nv})"
+            okey = f"{key}: {fam or name}"
+            if (name, nv) in failed:
+                res.record(lab + " returns a value", Outcome("cex", env={}, how="structure", detail=failed[(name, nv)]), make_replay(name, nv), key=okey + " - advertised result raises")
+                continue
+            val = got[(name, nv)]
+            if val is None:
+                res.record(lab + " returns a value", Outcome("cex", env={}, how="structure", detail="None"), make_replay(name, nv), key=okey + " - advertised result not implemented")
+                continue
+            if want is None:
+                continue
+            if nv and name not in nodal_f:
+                want_n = node_average(mesh, want if want.ndim == 2 else want[:, None])
+                want_n = want_n if want.ndim == 2 else want_n[:, 0]
+                cmp(res, lab, val, want_n, pcs, make_replay(name, nv), TOL * scale, key=okey + " (nodal form)")
+            elif not nv and name in nodal_f:
+                continue  # element form of a nodal quantity: conversion checked by the elastic jobs
+            else:
+                cmp(res, lab, val, want, pcs, make_replay(name, nv), TOL * scale, key=okey)
+    o = prove_abs_le(as_sym(np.asarray(got[("N", False)], dtype=object)[0]) * 2 - emean(Frc, 0)[0], TOL, pcs, "twin") if ("N", False) in got else None
+    res.twin(f"{key} twin", o is not None and o.status == "cex")
+    res.stubs |= facade.USED_STUBS
+    return res
+
+
+def has_sym_arr(a):
+    return any(isinstance(x, Sym) and not x.is_const() for x in np.asarray(a, dtype=object).ravel())
+
+
 def job_reaction(cfg):
     """Reactions on a fully constrained boundary balance the applied loads (through the stubbed solve)."""
     from EasyFEA import Simulations
@@ -433,7 +610,7 @@ def job_reaction(cfg):
 
 
 def job(cfg):
-    return {"elastic": job_elastic, "reaction": job_reaction}.get(cfg["sim"], job_simple)(cfg)
+    return {"elastic": job_elastic, "reaction": job_reaction, "beam_results": job_beam_results}.get(cfg["sim"], job_simple)(cfg)
 
 
 def main():
@@ -451,6 +628,9 @@ def main():
         configs.append({"sim": "elastic", "dim": 2, "mesh": "tri6_2", "law": "ortho", "order": "repeat"})
         configs.append({"sim": "elastic", "dim": 2, "mesh": "quad2", "law": "iso_strain", "order": "strain-first"})
     configs += [{"sim": "thermal"}, {"sim": "weakforms"}, {"sim": "beam", "dim": 1}, {"sim": "beam", "dim": 2}, {"sim": "beam", "dim": 3}, {"sim": "reaction"}]
+    for dim in (1, 2, 3):
+        for timo in (False, True):
+            configs.append({"sim": "beam_results", "dim": dim, "timoshenko": timo})
     results = harness.run_jobs(job, configs)
     harness.finish(
         PID, results, t0=t0,
